@@ -23,43 +23,102 @@ func (a atomPoss) union(b atomPoss) atomPoss {
 	return atomPoss{a.bad || b.bad, a.good || b.good, a.na || b.na, a.present || b.present}
 }
 
-// atomOnEdge computes what is known about the atom when cond evaluated to truth,
-// honouring short-circuit evaluation.
+// atomOnEdge computes what is known about the atom when cond evaluated to
+// truth. The condition is treated as a boolean formula over its leaves
+// (operands of &&, || and !); all assignments of the leaves that make the
+// formula equal to truth are enumerated:
+//   - bad:  in some assignment the atom is in its rejecting state AND that
+//           state is responsible for the outcome (flipping the atom alone would
+//           flip the formula) — so `over && applicable` being false is not a
+//           rejection even if `over` happens to hold;
+//   - good: in some assignment the atom is in its accepting state;
+//   - na:   in some assignment short-circuit evaluation skips the atom.
 func atomOnEdge(cond ast.Expr, truth bool, m atomMatcher) atomPoss {
-	cond = ast.Unparen(cond)
-	if ok, badWhenTrue := m(cond); ok {
-		if badWhenTrue == truth {
-			return atomPoss{bad: true, present: true}
-		}
-		return atomPoss{good: true, present: true}
+	type node struct {
+		op   byte // 'L' leaf, '!' , '&', '|'
+		x, y *node
+		leaf int
 	}
-	switch e := cond.(type) {
-	case *ast.UnaryExpr:
-		if e.Op == token.NOT {
-			return atomOnEdge(e.X, !truth, m)
+	var leaves []ast.Expr
+	atomLeaf, atomBadWhenTrue := -1, false
+	var build func(e ast.Expr) *node
+	build = func(e ast.Expr) *node {
+		e = ast.Unparen(e)
+		if ok, bwt := m(e); ok {
+			leaves = append(leaves, e)
+			if atomLeaf < 0 {
+				atomLeaf, atomBadWhenTrue = len(leaves)-1, bwt
+			}
+			return &node{op: 'L', leaf: len(leaves) - 1}
 		}
-	case *ast.BinaryExpr:
-		if e.Op != token.LAND && e.Op != token.LOR {
-			return atomPoss{}
+		switch x := e.(type) {
+		case *ast.UnaryExpr:
+			if x.Op == token.NOT {
+				return &node{op: '!', x: build(x.X)}
+			}
+		case *ast.BinaryExpr:
+			if x.Op == token.LAND {
+				return &node{op: '&', x: build(x.X), y: build(x.Y)}
+			}
+			if x.Op == token.LOR {
+				return &node{op: '|', x: build(x.X), y: build(x.Y)}
+			}
 		}
-		// normalise: for &&, "all" = true; for ||, "all" = false
-		all := e.Op == token.LAND
-		if truth == all {
-			// both operands evaluated to `truth`
-			return atomOnEdge(e.X, truth, m).union(atomOnEdge(e.Y, truth, m))
+		leaves = append(leaves, e)
+		return &node{op: 'L', leaf: len(leaves) - 1}
+	}
+	root := build(cond)
+	if atomLeaf < 0 {
+		return atomPoss{}
+	}
+	if len(leaves) > 10 {
+		// too wide to enumerate: be conservative
+		return atomPoss{bad: true, good: true, na: true, present: true}
+	}
+	var eval func(n *node, asg uint, evaluated *bool) bool
+	eval = func(n *node, asg uint, evaluated *bool) bool {
+		switch n.op {
+		case 'L':
+			if n.leaf == atomLeaf {
+				*evaluated = true
+			}
+			return asg&(1<<uint(n.leaf)) != 0
+		case '!':
+			return !eval(n.x, asg, evaluated)
+		case '&':
+			if !eval(n.x, asg, evaluated) {
+				return false
+			}
+			return eval(n.y, asg, evaluated)
+		default:
+			if eval(n.x, asg, evaluated) {
+				return true
+			}
+			return eval(n.y, asg, evaluated)
 		}
-		// either X == !all (Y unevaluated), or X == all and Y == !all
-		x1 := atomOnEdge(e.X, !all, m)
-		x2 := atomOnEdge(e.X, all, m)
-		y := atomOnEdge(e.Y, !all, m)
-		out := x1.union(x2)
-		if y.present {
-			out = out.union(y)
+	}
+	out := atomPoss{present: true}
+	for asg := uint(0); asg < 1<<uint(len(leaves)); asg++ {
+		ev := false
+		if eval(root, asg, &ev) != truth {
+			continue
+		}
+		if !ev {
 			out.na = true
+			continue
 		}
-		return out
+		av := asg&(1<<uint(atomLeaf)) != 0
+		rejecting := av == atomBadWhenTrue
+		if !rejecting {
+			out.good = true
+			continue
+		}
+		ev2 := false
+		if eval(root, asg^(1<<uint(atomLeaf)), &ev2) != truth {
+			out.bad = true // the rejecting state is responsible for taking this edge
+		}
 	}
-	return atomPoss{}
+	return out
 }
 
 // A gate is one guard that must stand between the candidates and the accept
@@ -195,14 +254,47 @@ func containsCall(info *types.Info, e ast.Expr, callee string) *ast.CallExpr {
 	return out
 }
 
-// atomCmpCall: `call(...) != x` (bad when true) / `call(...) == x` (bad when false).
+// atomEqCall: `call(...) != x` (bad when true) / `call(...) == x` (bad when
+// false). The call may also be reached through a local variable whose only
+// definition is that call (`if clean := path.Clean(p); clean == p`).
 func atomEqCall(info *types.Info, callee string) atomMatcher {
+	return atomEqCallIn(nil, info, callee)
+}
+
+func atomEqCallIn(f *Fn, info *types.Info, callee string) atomMatcher {
+	side := func(e ast.Expr) bool {
+		if containsCall(info, e, callee) != nil {
+			return true
+		}
+		if f == nil {
+			return false
+		}
+		o := identObj(info, e)
+		if o == nil {
+			return false
+		}
+		ndef, ncall := 0, 0
+		ast.Inspect(f.Body, func(n ast.Node) bool {
+			if as, ok := n.(*ast.AssignStmt); ok && len(as.Lhs) == len(as.Rhs) {
+				for i, l := range as.Lhs {
+					if identObj(info, l) == o {
+						ndef++
+						if containsCall(info, as.Rhs[i], callee) != nil {
+							ncall++
+						}
+					}
+				}
+			}
+			return true
+		})
+		return ndef > 0 && ndef == ncall
+	}
 	return func(e ast.Expr) (bool, bool) {
 		be, ok := e.(*ast.BinaryExpr)
 		if !ok || (be.Op != token.EQL && be.Op != token.NEQ) {
 			return false, false
 		}
-		if containsCall(info, be.X, callee) == nil && containsCall(info, be.Y, callee) == nil {
+		if !side(be.X) && !side(be.Y) {
 			return false, false
 		}
 		return true, be.Op == token.NEQ
